@@ -149,6 +149,10 @@ def r202(repo, ctx, index=None):
                   construct=f'{cls}._collectSurrogateData vs {cls}._processSurrogateData')
     for path, w, r, floor in pairs:
         fw, fr = repo.func(path, w), repo.func(path, r)
+        if index is not None:
+            # class-level tables of saved terms are resolved for the class and written out
+            fw = index.specialised((path, w.split('.')[0]), w.split('.')[1]) or fw
+            fr = index.specialised((path, r.split('.')[0]), r.split('.')[1]) or fr
         kw, kr = _dict_keys_written(fw), _dict_keys_read(fr)
         ok = kw == kr and len(kw) >= floor
         ctx.check(ok, 'R20.2', path, r, fr, f'{w.split(".")[-1]} writes and {r.split(".")[-1]} reads the same {len(kw)} keys {sorted(kw)}',
@@ -481,11 +485,15 @@ def r2010(repo, ctx):
     rows = {out_name}
     got = {}
 
+    numdicts = {}       # local dictionaries with literal keys and offset-like values (column counts per field)
+
     def num(e):
         if isinstance(e, ast.Constant) and isinstance(e.value, int):
             return sp.Integer(e.value)
         if isinstance(e, ast.Name) and e.id in env:
             return env[e.id]
+        if isinstance(e, ast.Subscript) and isinstance(e.value, ast.Name) and e.value.id in numdicts and U.is_const(e.slice) and e.slice.value in numdicts[e.value.id]:
+            return numdicts[e.value.id][e.slice.value]
         if isinstance(e, ast.BinOp) and isinstance(e.op, (ast.Add, ast.Sub, ast.Mult, ast.Pow)):
             l, r = num(e.left), num(e.right)
             return {ast.Add: l + r, ast.Sub: l - r, ast.Mult: l * r, ast.Pow: l ** r}[type(e.op)]
@@ -500,6 +508,8 @@ def r2010(repo, ctx):
             return a if a == b else None
         if isinstance(e, ast.Name) and e.id in got:
             return got[e.id]
+        if isinstance(e, ast.Subscript) and isinstance(e.value, ast.Name) and U.is_const(e.slice) and f'{e.value.id}[{e.slice.value!r}]' in got:
+            return got[f'{e.value.id}[{e.slice.value!r}]']
         def is_row(b):
             if isinstance(b, ast.Name):
                 return b.id in rows and b.id != out_name
@@ -522,6 +532,19 @@ def r2010(repo, ctx):
         return None
     try:
         for st in U.body_without_docstring(fr):
+            if isinstance(st, ast.Assign) and len(st.targets) == 1 and isinstance(st.targets[0], ast.Name) and isinstance(st.value, ast.Dict) and st.value.keys \
+                    and all(isinstance(k, ast.Constant) for k in st.value.keys):
+                try:
+                    numdicts[st.targets[0].id] = {k.value: num(v) for k, v in zip(st.value.keys, st.value.values)}
+                    continue
+                except AnalysisError:
+                    pass
+            if isinstance(st, ast.Assign) and len(st.targets) == 1 and isinstance(st.targets[0], ast.Subscript) and isinstance(st.targets[0].value, ast.Name) \
+                    and U.is_const(st.targets[0].slice):
+                iv = interval(st.value)
+                if iv is not None:
+                    got[f'{st.targets[0].value.id}[{st.targets[0].slice.value!r}]'] = iv
+                continue
             if isinstance(st, ast.Assign) and len(st.targets) == 1 and isinstance(st.targets[0], ast.Name):
                 t, v = st.targets[0].id, st.value
                 if isinstance(v, ast.Subscript) and isinstance(v.value, ast.Name) and v.value.id == out_name and (U.is_const(v.slice, 0) or (isinstance(v.slice, ast.Tuple) and U.is_const(v.slice.elts[0], 0)
@@ -553,9 +576,13 @@ def r2010(repo, ctx):
         return
     total = off
     nf = 0
+    star = [k.value.id for k in ctor[0].keywords if k.arg is None and isinstance(k.value, ast.Name)]
     for key, field in CURV_FIELDS.items():
         kw = U.kwarg(ctor[0], field)
         iv = interval(kw) if kw is not None else None
+        if kw is None and star:         # CurvatureOutput(**terms): the fields are the keys stored into the dictionary
+            iv = got.get(f'{star[0]}[{field!r}]')
+            kw = ctor[0]
         want = layout.get(key)
         if iv is None or want is None:
             ctx.undecided('R20.10', SU, f'{cls}._surrogateOutputToCurvature', kw or fr, f'columns of the field {field} not identified')
